@@ -1,0 +1,100 @@
+//go:build verif
+
+// Contracts for the deductive checks in /verif (comment-only; compiled only with -tags verif,
+// and even then contains no code).
+//
+// C10: a model that declares an external volume together with creation parameters, gives a
+// secret/config none or several of its mutually exclusive sources, or combines mutually exclusive
+// settings (count / device_ids) fails with an error; C01: no checker panics.
+
+package validation
+
+// keys an external resource may carry besides "external" itself (consts.Extensions == "#extensions")
+//@ spec extAllowed(k string) bool = k == "name" || k == "external" || k == "#extensions" || hasprefix(k, "x-")
+//@ spec extTrue(v map[string]any) bool = has(v, "external") && isBool(v["external"]) && asBool(v["external"])
+//@ spec extConflict(v map[string]any) bool = extTrue(v) && exists k string :: has(v, k) && !extAllowed(k)
+// the same without the type test (after the unchecked b.(bool) the engine does not retain isBool; see report)
+//@ spec extConflictW(v map[string]any) bool = has(v, "external") && asBool(v["external"]) && exists k string :: has(v, k) && !extAllowed(k)
+
+// what the schema (plus the canonical transformers) guarantees at the paths of the rule table
+//@ spec shapeAt(value any, p string) bool = (pathmatch(p, "configs.*") ==> isMap(value)) && (pathmatch(p, "secrets.*") ==> isMap(value)) && (pathmatch(p, "services.*.develop.watch.*.path") ==> isStr(value)) && (pathmatch(p, "services.*.deploy.resources.reservations.devices.*") ==> isMap(value)) && (pathmatch(p, "services.*.gpus.*") ==> isMap(value))
+
+// K5 table lemma in the engine's table/row/exact syntax; the snapshot binary rejects these keywords
+// ("unrecognised contract line"), so it is kept as a plain comment:
+// table[C10,C01] checks
+//   row "volumes.*" checkVolume
+//   row "configs.*" checkFileObject(?)
+//   row "secrets.*" checkFileObject(?)
+//   row "services.*.develop.watch.*.path" checkPath
+//   row "services.*.deploy.resources.reservations.devices.*" checkDeviceRequest
+//   row "services.*.gpus.*" checkDeviceRequest
+//   exact
+
+// No requires on the type of v["external"]: the schema admits boolean|string|object there, and a
+// string survives to this point when interpolation is switched off. The typeassert obligation is a finding.
+//@ func checkExternal
+//@   nopanic[C01,C10]
+//@   ensures[C10] extConflict(v) ==> err != nil
+//@   ensures[C10] err != nil ==> extConflictW(v)
+//@   ensures[C10] !has(v, "external") ==> err == nil
+//@   loop 1
+//@     invariant[C10] forall k string :: seen(k) ==> extAllowed(k)
+
+//@ func checkVolume
+//@   nopanic[C01,C10]
+//@   ensures[C10] isNil(value) ==> err == nil
+//@   ensures[C10] !isNil(value) && !isMap(value) ==> err != nil
+//@   ensures[C10] isMap(value) && extConflict(asMap(value)) ==> err != nil
+//@   ensures[C10] isMap(value) && err != nil ==> extConflictW(asMap(value))
+
+//@ func checkPath
+//@   nopanic[C01,C10]
+//@   requires isStr(value)
+//@   ensures[C10] err != nil <==> asStr(value) == ""
+
+//@ func checkDeviceRequest
+//@   nopanic[C01,C10]
+//@   requires isMap(value)
+//@   ensures[C10] err != nil <==> (has(asMap(value), "count") && has(asMap(value), "device_ids"))
+
+//@ func checkFileObject
+//@   nopanic[C01,C10]
+
+// keys is the captured variadic parameter of checkFileObject: the mutually exclusive sources
+//@ func checkFileObject$1
+//@   nopanic[C01,C10]
+//@   requires isMap(value)
+//@   ensures[C10] (exists i int, j int :: 0 <= i && i < j && j < len(keys) && has(asMap(value), keys[i]) && has(asMap(value), keys[j])) ==> err != nil
+//@   ensures[C10] (forall i int :: 0 <= i && i < len(keys) ==> !has(asMap(value), keys[i])) && !has(asMap(value), "driver") && !has(asMap(value), "external") ==> err != nil
+//@   ensures[C10] err != nil ==> (exists i int, j int :: 0 <= i && i < j && j < len(keys) && has(asMap(value), keys[i]) && has(asMap(value), keys[j]))
+//@     || ((forall i int :: 0 <= i && i < len(keys) ==> !has(asMap(value), keys[i])) && !has(asMap(value), "driver") && !has(asMap(value), "external"))
+//@   loop 1
+//@     invariant[C10] -1 <= rangeindex && rangeindex < len(keys) && count >= 0
+//@     invariant[C10] forall j int :: 0 <= j && j <= rangeindex && has(asMap(value), keys[j]) ==> count >= 1
+//@     invariant[C10] count >= 1 ==> (exists i int :: 0 <= i && i <= rangeindex && has(asMap(value), keys[i]))
+//@     invariant[C10] count >= 2 ==> (exists i int, j int :: 0 <= i && i < j && j <= rangeindex && has(asMap(value), keys[i]) && has(asMap(value), keys[j]))
+//@     invariant[C10] forall i int, j int :: 0 <= i && i < j && j <= rangeindex && has(asMap(value), keys[i]) && has(asMap(value), keys[j]) ==> count >= 2
+//@     decreases[C01] len(keys) - rangeindex
+
+// The configs/secrets clauses are inactive: the table dispatch treats the two checkFileObject(...) rows as
+// "unresolved function value" (captured keys unknown), so nothing about them reaches check.
+//@ func check
+//@   nopanic[C01,C10]
+//@?  ensures[C10] pathmatch(p, "secrets.*") && has(asMap(value), "file") && has(asMap(value), "environment") ==> err != nil
+//@?  ensures[C10] pathmatch(p, "secrets.*") && !has(asMap(value), "file") && !has(asMap(value), "environment") && !has(asMap(value), "driver") && !has(asMap(value), "external") ==> err != nil
+//@?  ensures[C10] pathmatch(p, "configs.*") && ((has(asMap(value), "file") && has(asMap(value), "environment")) || (has(asMap(value), "file") && has(asMap(value), "content")) || (has(asMap(value), "environment") && has(asMap(value), "content"))) ==> err != nil
+//@?  ensures[C10] pathmatch(p, "configs.*") && !has(asMap(value), "file") && !has(asMap(value), "environment") && !has(asMap(value), "content") && !has(asMap(value), "driver") && !has(asMap(value), "external") ==> err != nil
+//@   requires shapeAt(value, p)
+//@   ensures[C10] pathmatch(p, "volumes.*") && isMap(value) && extConflict(asMap(value)) ==> err != nil
+//@   ensures[C10] pathmatch(p, "volumes.*") && isMap(value) && err != nil ==> extConflictW(asMap(value))
+//@   ensures[C10] pathmatch(p, "volumes.*") && isNil(value) ==> err == nil
+//@   ensures[C10] pathmatch(p, "volumes.*") && !isNil(value) && !isMap(value) ==> err != nil
+//@   ensures[C10] pathmatch(p, "services.*.develop.watch.*.path") ==> (err != nil <==> asStr(value) == "")
+//@   ensures[C10] pathmatch(p, "services.*.deploy.resources.reservations.devices.*") ==> (err != nil <==> (has(asMap(value), "count") && has(asMap(value), "device_ids")))
+//@   ensures[C10] pathmatch(p, "services.*.gpus.*") ==> (err != nil <==> (has(asMap(value), "count") && has(asMap(value), "device_ids")))
+//@   loop 1
+//@     invariant[C10] forall k string :: seen(k) ==> !pathmatch(p, k)
+
+//@ func Validate
+//@   nopanic[C01,C10]
+//@   requires dict != nil
